@@ -3,6 +3,7 @@
 package storeh
 
 import (
+	"fmt"
 	"math/rand"
 	"sort"
 
@@ -27,6 +28,7 @@ type Op struct {
 	K     int64  `json:"k,omitempty"`
 	Obs   string `json:"obs,omitempty"` // Gallina term of the observation
 	WF    bool   `json:"wf"`            // generated as a well-formed call
+	Panic string `json:"panic,omitempty"` // the real code panicked in this call
 }
 
 type History struct {
@@ -126,7 +128,20 @@ func toks(l []int64) string { return c.Ints(l) }
 
 // exec runs one op on the real stores and returns the observation term; the
 // bool is false when the history must stop (reopen failed).
-func (e *Env) Exec(op *Op) bool {
+func (e *Env) Exec(op *Op) (cont bool) {
+	defer func() {
+		if r := recover(); r != nil {
+			// the store's mutex may still be held: the history stops here
+			op.Panic = fmt.Sprint(r)
+			op.Obs = ""
+			e.disarm()
+			cont = false
+		}
+	}()
+	return e.exec(op)
+}
+
+func (e *Env) exec(op *Op) bool {
 	p := e.Pool
 	switch op.Kind {
 	case "bwrite":
@@ -179,6 +194,19 @@ func (e *Env) Exec(op *Op) bool {
 			return false
 		}
 		op.Obs = "(OReopen true)"
+	case "legacy":
+		// Move the index entries of the given block tokens to the legacy
+		// root-bucket layout, then read the tip: invisible to the model
+		// (rendered as QBTip).
+		hs := make([]chainhash.Hash, len(op.Es))
+		for i, en := range op.Es {
+			hs[i] = p.Hash(en.A)
+		}
+		if err := headerfs.VerifLegacyize(e.DB, hs); err != nil {
+			op.Obs = "(OPair None)"
+			break
+		}
+		fallthrough
 	case "qbtip":
 		h, ht, err := e.BS.ChainTip()
 		if err != nil {
@@ -316,7 +344,7 @@ func OpTerm(op *Op) string {
 		return c.App("FRollback", c.Z(op.X), faultTerm(op))
 	case "reopen":
 		return "Reopen"
-	case "qbtip":
+	case "qbtip", "legacy":
 		return "QBTip"
 	case "qbheight":
 		return c.App("QBHeight", c.Z(op.N))
@@ -361,6 +389,15 @@ func (g *Gen) fresh() int64 {
 	n := int64(len(g.E.Pool.Headers))
 	if g.MaxTok > 0 {
 		n = g.MaxTok
+	}
+	if g.R.Intn(8) == 0 {
+		// boundary hashes (sub-bucket prefixes 00 00 and ff ff)
+		all := int64(len(g.E.Pool.Headers))
+		for _, t := range []int64{1, all, 2, all - 1, 3, all - 2} {
+			if t <= n && !g.Used[t] && t != g.E.Pool.Genesis && g.R.Intn(2) == 0 {
+				return t
+			}
+		}
 	}
 	for try := 0; try < 1000; try++ {
 		t := 1 + g.R.Int63n(n)
@@ -556,8 +593,34 @@ func (g *Gen) Next(malformed bool) Op {
 			op.WF = false
 		}
 		return op
-	case x < 59:
+	case x < 57:
 		return Op{Kind: "reopen", WF: true}
+	case x < 59:
+		// an old database: some of the stored entries (a prefix of the
+		// chain, the tip, or a random subset) live in the root bucket
+		op := Op{Kind: "legacy", WF: true}
+		n := len(g.Chain)
+		switch r.Intn(4) {
+		case 0:
+			for _, t := range g.Chain {
+				op.Es = append(op.Es, Ent{A: t})
+			}
+		case 1:
+			for _, t := range g.Chain[:n-n/2] {
+				op.Es = append(op.Es, Ent{A: t})
+			}
+		case 2:
+			if n > 0 {
+				op.Es = append(op.Es, Ent{A: g.Chain[n-1]})
+			}
+		default:
+			for _, t := range g.Chain {
+				if r.Intn(2) == 0 {
+					op.Es = append(op.Es, Ent{A: t})
+				}
+			}
+		}
+		return op
 	case x < 64:
 		return Op{Kind: "qbtip", WF: true}
 	case x < 69:
